@@ -67,6 +67,8 @@ def w_row(arg):
     for b in fbits:
         fmask |= 1 << (56 - b)
     k = 0
+    if bgs:
+        bgs = list(bgs) + [typical_bg(row.reg)]        # the exhaustive sweep also inside a plausible report of the register
     for raw in raws:
         for st in ((0, 1) if row.status is not None else (1,)):
             for sg in ((0, 1) if row.sign is not None else (0,)):
@@ -167,6 +169,16 @@ def w_misc(arg):
         if s:
             acc.bad(s, {"kind": "misc", "sub": kind, "p": list(p)})
     bgs = [0, ONES, 0x55555555555555, 0xAAAAAAAAAAAAAA]
+    typ = typical_bg("44")
+    for sg in (0, 1):
+        for raw in range(1024):
+            keep = sum(1 << (56 - b) for b in range(24, 35))
+            do("temp44", (sg, raw, carrier((sg << 32) | (raw << 22) | (typ & ~keep & ONES), raw)))
+    for st in (0, 1):
+        for spd in range(0, 512, 3):
+            for dr in (0, 171, 511):
+                keep = sum(1 << (56 - b) for b in range(5, 24))
+                do("wind44", (st, spd, dr, carrier((st << 51) | (spd << 42) | (dr << 33) | (typ & ~keep & ONES), spd)))
     k = 0
     for st in (0, 1):
         for spd in list(range(0, 512, 7)) + [511, 1, 255, 256]:
@@ -274,8 +286,80 @@ def w_pairs(reg):
     return acc.res()
 
 
+def groups_of(reg):
+    """every bit of the register's MB assigned to a group: the decoded fields, the fields decoded by the tuple decoders
+    (wind44 / temp44), and the remaining bit runs as unsigned pseudo-fields."""
+    rows = [r for r in CF.ROWS if r.reg == reg and not r.name.startswith("alt40")]
+    if reg == "44":
+        rows += [CF.Row("44", "_wspd", 5, None, 6, 14, 1), CF.Row("44", "_wdir", None, None, 15, 23, 1), CF.Row("44", "_temp", None, 24, 25, 34, 1)]
+    used = set()
+    for r in rows:
+        used |= r.bits()
+    run = []
+    for b in range(1, 58):
+        if b <= 56 and b not in used:
+            run.append(b)
+        elif run:
+            rows.append(CF.Row(reg, "_bits%d" % run[0], None, None, run[0], run[-1], 1))
+            run = []
+    return rows
+
+
+def w_product(arg):
+    """three-way and higher conditions: the judged field at its corner settings while EVERY other group of the register
+    independently takes one of {absent / zero, present with a mid-range value, present with all ones} - the full product.
+    Reaches conditions such as "source in 1..4 AND pressure available AND pressure mid-range" that neither corner pairs nor
+    single-bit deviations contain."""
+    reg, part = arg
+    acc = Acc()
+    grp = groups_of(reg)
+
+    def three(r):
+        top = (1 << r.nbits) - 1
+        if r.name.startswith("_bits"):
+            return [(1, 0, 0), (1, 0, 1), (1, 0, top)]          # an undecoded run (source / mode / reserved bits): 0, 1, all ones
+        return [(0, 0, 0), (1, 0, top // 3 + 1), (1, 1 if r.sign is not None else 0, top)]
+    k = 0
+    judged = [g for g in grp if not g.name.startswith("_bits") and g.name != "_wdir"]
+    for a in judged[part::2]:
+        others = [g for g in grp if g is not a]
+        aset = specials(a) + [(1, 0, ((1 << a.nbits) - 1) // 3 + 1)]
+        for combo in itertools.product(*[three(o) for o in others]):
+            base = 0
+            for o, stg in zip(others, combo):
+                base |= o.place(*stg)
+            for sa in aset:
+                k += 1
+                mb = base | a.place(*sa)
+                msg = vary_case(carrier(mb, k), k // 2)
+                acc.n += 1
+                if a.name == "_temp":
+                    s = judge_misc("temp44", (sa[1], sa[2], msg))
+                    case = {"kind": "misc", "sub": "temp44", "p": [sa[1], sa[2], msg]}
+                elif a.name == "_wspd":
+                    d_ = [c_ for o, c_ in zip(others, combo) if o.name == "_wdir"][0][2]
+                    s = judge_misc("wind44", (sa[0], sa[2], d_, msg))
+                    case = {"kind": "misc", "sub": "wind44", "p": [sa[0], sa[2], d_, msg]}
+                else:
+                    s = judge_row(a.name, sa[0], sa[1], sa[2], msg)
+                    case = {"kind": "row", "name": a.name, "f": list(sa), "msg": msg}
+                if s:
+                    acc.bad(s + ":in_the_product_of_the_other_fields", case)
+        acc.out.add(("product", reg, a.name))
+    return acc.res()
+
+
+def typical_bg(reg):
+    """a plausible report: every field of the register present with a mid-range value, undecoded runs = 1."""
+    mb = 0
+    for g in groups_of(reg):
+        top = (1 << g.nbits) - 1
+        mb |= g.place(1, 0, 1 if g.name.startswith("_bits") else top // 3 + 1)
+    return mb
+
+
 def w_any(t):
-    return {"r": w_row, "m": w_misc, "p": w_pairs}[t[0]](t[1])
+    return {"r": w_row, "m": w_misc, "p": w_pairs, "x": w_product}[t[0]](t[1])
 
 
 def run(ctx):
@@ -283,6 +367,7 @@ def run(ctx):
     rng = random.Random(ctx.seed)
     bgs = [0, ONES, 0x55555555555555, 0xAAAAAAAAAAAAAA, rng.getrandbits(56)]
     tasks = [("m", ctx.seed)] + [("p", reg) for reg in sorted({r.reg for r in CF.ROWS})]
+    tasks += [("x", (reg, part)) for reg in sorted({r.reg for r in CF.ROWS}) for part in (0, 1)]
     for row in CF.ROWS:
         allraw = list(range(1 << row.nbits))
         sub = sorted(set([0, 1, 2, allraw[-1], allraw[-2], len(allraw) // 2, len(allraw) // 2 - 1] + allraw[::max(1, len(allraw) // 9)]))
@@ -300,10 +385,10 @@ def run(ctx):
 def replay(case):
     if case["kind"] == "row":
         s = judge_row(case["name"], *case["f"], case["msg"], case.get("pipeline", False))
-        return ([(s, case), (s + ":bg1", case), (s + ":after_df_icao_infer", case)] +
+        return ([(s, case), (s + ":bg1", case), (s + ":after_df_icao_infer", case), (s + ":in_the_product_of_the_other_fields", case)] +
                 [(s + ":joint_with_%s" % r_.name, case) for r_ in CF.ROWS]) if s else []
     if case["sub"] == "vector" and len(case["p"]) == 3:
         s = judge_misc("vector", tuple(case["p"]))
         return [(s, case)] if s else [(x, c) for x, c in w_misc(0)["viols"] if x.startswith("oracle")]
     s = judge_misc(case["sub"], tuple(case["p"]))
-    return [(s, case)] if s else []
+    return [(s, case), (s + ":in_the_product_of_the_other_fields", case)] if s else []
